@@ -65,12 +65,92 @@ func singleStore(a *ssa.Alloc) ssa.Value {
 // stands for that value.
 func Path(v ssa.Value) string { return pathD(v, 0) }
 
+// pathSubst, when set, maps a parameter to the value it stands for (see
+// Prog.WithHelperParams); Path then continues in the caller.
+var pathSubst func(*ssa.Parameter) ssa.Value
+
+// WithHelperParams runs f with Path resolving the parameters (and receiver) of
+// unexported single-call-site helpers to the arguments at that call site, so
+// that a rule about "the object the gate works on" reads the same whether the
+// gate sits in the entry point or was extracted into a helper of it.
+func (p *Prog) WithHelperParams(f func()) {
+	old := pathSubst
+	pathSubst = func(par *ssa.Parameter) ssa.Value {
+		fn := par.Parent()
+		if fn == nil || fn.Object() == nil || fn.Object().Exported() || fn.Parent() != nil {
+			return nil
+		}
+		var site ssa.CallInstruction
+		for _, c := range p.Callers(fn) {
+			if c.Common().StaticCallee() != fn {
+				return nil
+			}
+			if site != nil {
+				return nil
+			}
+			site = c
+		}
+		if site == nil {
+			return nil
+		}
+		for i, q := range fn.Params {
+			if q == par && i < len(site.Common().Args) {
+				return site.Common().Args[i]
+			}
+		}
+		return nil
+	}
+	defer func() { pathSubst = old }()
+	f()
+}
+
+// helperClosure returns fn and the unexported functions reachable from it
+// through static calls that have exactly one call site in the repository
+// (extracted helpers), up to the given depth.
+func (p *Prog) helperClosure(fn *ssa.Function, depth int) []*ssa.Function {
+	res := []*ssa.Function{fn}
+	seen := map[*ssa.Function]bool{fn: true}
+	frontier := []*ssa.Function{fn}
+	for d := 0; d < depth; d++ {
+		var next []*ssa.Function
+		for _, f := range frontier {
+			forEachCall(f, func(site ssa.CallInstruction) {
+				g := site.Common().StaticCallee()
+				if g == nil || seen[g] || g.Object() == nil || g.Object().Exported() || len(g.Blocks) == 0 {
+					return
+				}
+				if !strings.Contains(fnPkgPath(g), "enbility/spine-go") {
+					return
+				}
+				n := 0
+				for _, c := range p.Callers(g) {
+					_ = c
+					n++
+				}
+				if n != 1 {
+					return
+				}
+				seen[g] = true
+				res = append(res, g)
+				next = append(next, g)
+			})
+		}
+		frontier = next
+	}
+	return res
+}
+
 func pathD(v ssa.Value, d int) string {
 	if d > 12 || v == nil {
 		return "?"
 	}
 	switch x := v.(type) {
 	case *ssa.Parameter:
+		if pathSubst != nil {
+			if a := pathSubst(x); a != nil {
+				return pathD(a, d+1)
+			}
+		}
 		if isRecv(x) {
 			return "recv"
 		}
